@@ -40,6 +40,7 @@ inductive CallArg
   | ctx (ty : Ty)           -- the context argument of that type of the calling method
   | ctxMissing (ty : Ty)    -- context not (yet) available in this build of the caller (omitted from the call)
   | source
+  | sourceParent            -- the pointer the current source was dereferenced from (`map . X | F` with F taking the pointer)
   deriving Repr, Inhabited
 
 inductive EnumAction
